@@ -13,6 +13,7 @@ import (
 
 	"verif/evid"
 	"verif/gen/cy"
+	"verif/gen/plant"
 	"verif/pgsim"
 	"verif/qcase"
 	"verif/refcypher"
@@ -38,6 +39,11 @@ func genCase(t *rapid.T) qcase.Case {
 		q := cy.Generate(t, genOptionsFor(t))
 		c = qcase.Case{Graph: g, Query: q.Text, Params: q.Params, Features: q.Features}
 		model, err := xlate.Parse(c.Query)
+		if err == nil && rapid.IntRange(0, 2).Draw(t, "plant") != 0 {
+			// two cases in three: the graph is extended so that the query's patterns have a match (gen/plant)
+			c.Graph = plant.Plant(t, c.Graph, model, c.Params, cy.EdgeKinds, cy.Props)
+			c.Features = append(c.Features, "planted")
+		}
 		if err != nil || qcase.ExcludedBy(c, model, findingOpen) == "" {
 			break
 		}
@@ -142,6 +148,11 @@ func oracle(c qcase.Case) (evid.Info, error) {
 	}
 	if len(ref.Rows) > 0 {
 		info.Classes = append(info.Classes, "rows>0")
+		for _, f := range c.Features {
+			if strings.HasPrefix(f, "template-") {
+				info.Classes = append(info.Classes, "f:"+f+"&rows>0")
+			}
+		}
 	}
 	return info, nil
 }
